@@ -557,6 +557,15 @@ def oracle_df(case):
         out.fail("raises|%s|df|%s" % (df.bucket, input_tag(las)), "df() raised %s\n%s" % (df.text, label))
         return out
     if len(cols) == 0:
+        # nothing to compare in the frame; the way back must still restore the same (empty) list of curves
+        out.cls("df-of-no-curves")
+        las2 = LB.build(case["las"]) if case.get("src") != "corpus" else None
+        if las2 is not None:
+            r = attempt(las2.set_data_from_df, df)
+            if is_raised(r):
+                out.fail("raises|%s|set_data_from_df|no-curves" % r.bucket, "set_data_from_df(df()) raised %s\n%s" % (r.text, label))
+            elif attempt(las2.keys) != []:
+                out.fail("df-roundtrip-names", "after set_data_from_df(df()) the curves are %r, before []\n%s" % (attempt(las2.keys), label))
         return out
     stringly = []
     if df.index.name != sess[0]:
@@ -731,12 +740,15 @@ def oracle_depth(case):
     label = "units (STRT, STOP, STEP, first curve) = %r\n%s" % (case["units"], text)
     out.cls("generated")
     out.sample = dict(view="depth", units=case["units"], text=text[:500])
-    las = attempt(lasio.read, io.StringIO(text))
+    mc = case.get("mnemonic_case", "upper")
+    out.cls("depth-mnemonic_case-" + mc)
+    las = attempt(lasio.read, io.StringIO(text), mnemonic_case=mc)
     if is_raised(las):
         out.rejected = True
         out.cls("rejected:" + las.bucket)
         return out
-    got = [las.well[m].unit if m in las.well.keys() else None for m in ("STRT", "STOP", "STEP")]
+    by_name = {it.original_mnemonic.upper(): it.unit for it in list(las.well)[::-1]}
+    got = [by_name.get(m) for m in ("STRT", "STOP", "STEP")]
     got.append(las.curves[0].unit if len(las.curves) else None)
     if got != list(case["units"]):
         out.rejected = True
@@ -870,7 +882,7 @@ def depth_cases(draw):
     start = draw(st.sampled_from([0.0, 100.0, 1670.0, 986904.0, -12.5, 0.3048, 2500.125]))
     step = draw(st.sampled_from([0.5, 0.1524, -0.125, 1.0, 12.0, -12.0, 0.1]))
     idx = ["%.4f" % (start + i * step) for i in range(n)]
-    case = dict(view="depth", src="gen", units=units, index=idx)
+    case = dict(view="depth", src="gen", units=units, index=idx, mnemonic_case=draw(st.sampled_from(["upper", "upper", "lower", "preserve"])))
     if LB.roll(draw, 4) == 0:
         case["pad"] = draw(st.sampled_from([" ", "  "]))
     return case
@@ -893,6 +905,7 @@ def depth_grid(tier):
         yield dict(view="depth", src="gen", units=[s, s, s, s], index=idx)
         yield dict(view="depth", src="gen", units=["", "", "", s], index=idx)
         yield dict(view="depth", src="gen", units=[s, None, None, "unknown"], index=idx)
+        yield dict(view="depth", src="gen", units=[s, s, s, ""], index=idx, mnemonic_case="lower")
     for f in FAMILIES:
         for g in FAMILIES:
             if f != g:
